@@ -1573,6 +1573,71 @@ def _multi_alias(fn):
     return done
 
 
+_PURE_BUILTINS = ("len", "zip", "enumerate", "abs", "float", "int", "sum", "min", "max", "range", "sorted", "list", "tuple", "reversed", "any", "all", "isinstance", "round", "map", "iter")
+
+
+def _param_reads(fn):
+    """x = P[-1] / x = P[:-1] (a literal index or slice of a parameter), x bound once, while the function never stores into
+    P, never calls a mutator on it and hands it only to builtins that read: `x` is that element / slice of P wherever it is
+    read (the marker or the objective part of a cost vector looked up once)"""
+    params = {a.arg for a in fn.args.args}
+    stores = {}
+    for n in ast.walk(fn):
+        if isinstance(n, ast.Name) and not isinstance(n.ctx, ast.Load):
+            stores[n.id] = stores.get(n.id, 0) + 1
+    frozen = set()
+    for P in params:
+        ok = stores.get(P, 0) == 0
+        for n in ast.walk(fn):
+            if not ok:
+                break
+            if isinstance(n, (ast.Subscript, ast.Attribute)) and not isinstance(n.ctx, ast.Load) and root_name(n) == P:
+                ok = False
+            elif isinstance(n, ast.Call):
+                if isinstance(n.func, ast.Attribute) and root_name(n.func) == P and n.func.attr in _MUTATORS:
+                    ok = False
+                fname = access_path(n.func) or ""
+                for a in list(n.args) + [k.value for k in n.keywords]:
+                    if isinstance(a, ast.Name) and a.id == P and fname not in _PURE_BUILTINS and not fname.endswith((".compare", ".append")):
+                        ok = False
+            elif isinstance(n, ast.AugAssign) and root_name(n.target) == P:
+                ok = False
+        if ok:
+            frozen.add(P)
+    done = False
+    for st in list(ast.walk(fn)):
+        if not (isinstance(st, ast.Assign) and len(st.targets) == 1 and isinstance(st.targets[0], ast.Name) and isinstance(st.value, ast.Subscript)
+                and isinstance(st.value.value, ast.Name) and st.value.value.id in frozen):
+            continue
+        x = st.targets[0].id
+        sl = st.value.slice
+        lit = (isinstance(sl, ast.Constant) and isinstance(sl.value, int)) or (isinstance(sl, ast.UnaryOp) and isinstance(sl.operand, ast.Constant)) or \
+            (isinstance(sl, ast.Slice) and all(b is None or isinstance(b, ast.Constant) or (isinstance(b, ast.UnaryOp) and isinstance(b.operand, ast.Constant)) for b in (sl.lower, sl.upper, sl.step)))
+        if not lit or stores.get(x, 0) != 1 or x in params:
+            continue
+        if any(isinstance(n, ast.Name) and n.id == x and isinstance(n.ctx, ast.Load) and getattr(n, "lineno", st.lineno) < st.lineno for n in ast.walk(fn)):
+            continue
+        if any(isinstance(n, (ast.FunctionDef, ast.Lambda)) and n is not fn and any(isinstance(m, ast.Name) and m.id == x for m in ast.walk(n)) for n in ast.walk(fn)):
+            continue
+        proto = st.value
+
+        class S(ast.NodeTransformer):
+            def visit_Name(self, n):
+                if n.id == x and isinstance(n.ctx, ast.Load):
+                    return ast.copy_location(copy.deepcopy(proto), n)
+                return n
+
+            def visit_Assign(self, n):
+                if n is st:
+                    return ast.copy_location(ast.Pass(), n)
+                return self.generic_visit(n)
+        S().visit(fn)
+        ast.fix_missing_locations(fn)
+        STATS["param_read"] = STATS.get("param_read", 0) + 1
+        done = True
+    return done
+
+
 def _split_rebinds(fn):
     """a local re-used for one alias after another in the body of the function (`append = A.append` ... `append = B.append`
     ...): each stretch between two bindings gets its own name, so that every one of them is a single-binding alias"""
@@ -2144,6 +2209,7 @@ def normalize_function(fn):
     if UNALIAS[0]:
         _multi_alias(fn)
         _split_rebinds(fn)
+        _param_reads(fn)
     _defs_to_lambdas(fn)
     if UNALIAS[0]:
         _unalias(fn)
